@@ -289,6 +289,27 @@ func runC12(c *Ctx) {
 		} else {
 			c.obRF("R12.3", sub, "builds-then-sends", false, "Submit builds one request and sends it", "")
 		}
+		// … and inside createHttpRequest: once buildHTTP has succeeded (the writer goroutine may be running, the files are
+		// open) the function hands the request out — every refusal (an unregistered media type …) is decided BEFORE
+		if chf := p.FnOpt("(*rt/client.Runtime).createHttpRequest"); chf != nil {
+			for _, bi := range callsIn(chf, "(*rt/client.request).buildHTTP") {
+				bcall, ok := bi.(*ssa.Call)
+				if !ok {
+					continue
+				}
+				berr := resultOf(bcall, 1)
+				if berr == nil {
+					continue
+				}
+				for _, r := range realReturns(chf) {
+					if len(r.Results) != 3 || isNilConst(resOf(r, 2)) || !pathExists(chf, bcall, r, nil, nil) {
+						continue
+					}
+					late := pathExists(chf, bcall, r, factNil(errAlias(berr), false), nil)
+					c.obI("R12.3", r, "no-refusal-after-the-request-was-built", !late, "after buildHTTP succeeded createHttpRequest returns the request: no error exit follows (it would abandon the body: the multipart writer stays blocked and the upload files stay open)", "an error return is reachable after a successful buildHTTP")
+				}
+			}
+		}
 		// the debug dump READS the request body: when it fails (a failing upload source), the body is left partly consumed
 		// — the request is not sent after that (what remains of the source would go out as a complete-looking upload)
 		for _, di := range callsIn(sub, "net/http/httputil.DumpRequestOut") {
@@ -859,6 +880,64 @@ func ruleCopyFailureKept(c *Ctx, rule string) {
 				}
 				ad, isLd := derefLoad(v)
 				return isLd && cellOf(ad) == cell
+			}
+			// the stream is copied at most once, whatever the outcome: the "already copied" latch is set on EVERY exit of the
+			// copying call (a second GetBody after a failed copy would copy what is left and overwrite the recorded error
+			// with nil — the truncated buffer then goes out as a successful request)
+			{
+				isFlagAddr := func(ad ssa.Value) bool {
+					if fv, isFV := ad.(*ssa.FreeVar); isFV {
+						return typeStr(fv.Type()) == "*bool"
+					}
+					if fa, isFA := ad.(*ssa.FieldAddr); isFA {
+						n, _ := structOf(fa.X.Type())
+						return n != nil && isNewType(n) && typeStr(fa.Type()) == "*bool"
+					}
+					return false
+				}
+				isLatch := func(in ssa.Instruction) bool {
+					st, ok := in.(*ssa.Store)
+					if !ok || !isFlagAddr(st.Addr) {
+						return false
+					}
+					b, isB := constBool(st.Val)
+					return isB && b
+				}
+				hasLatch := false
+				for _, fn2 := range append([]*ssa.Function{g}, anonFuncsDeep(g)...) {
+					for _, in := range ownInstrs(fn2) {
+						if isLatch(in) {
+							hasLatch = true
+						}
+					}
+				}
+				if hasLatch {
+					latched := false
+					for _, d := range defersIn(g) {
+						if df := deferredBody(d); df != nil && dominates(d, call) {
+							all := len(returnsOf(df)) > 0
+							for _, r := range returnsOf(df) {
+								if pathExists(df, nil, r, nil, isLatch) {
+									all = false
+								}
+							}
+							if all {
+								latched = true
+							}
+						}
+					}
+					if !latched {
+						latched = true
+						for _, r := range realReturns(g) {
+							if pathExists(g, call, r, nil, nil) && pathExists(g, call, r, nil, isLatch) {
+								latched = false
+							}
+						}
+					}
+					c.obI(rule, call, "failed-copy-never-retried", latched, "the call that copies the stream sets the 'copied' latch on every one of its exits, also when the copy or the close fails", "an exit after the copy leaves the latch unset: the next GetBody copies the rest of the stream and replaces the recorded failure by nil")
+				} else {
+					c.obRI(rule, call, "failed-copy-never-retried", false, "the copying call latches that it ran", "no boolean latch found (sync.Once or another device: not decided)")
+				}
 			}
 			// the source that was copied is then closed — the SOURCE, i.e. what the body variable held when it was copied:
 			// once the variable is re-bound to the buffer, a type assertion on it finds no closer and the stream stays open
